@@ -14,6 +14,7 @@
 //   limitations under the License.
 //
 #include "track.h"
+#include "verif_trace.h"
 
 #include <functional>
 #include <iomanip>
@@ -152,6 +153,7 @@ std::vector<Sector> decode_mfm_track(const BitStream& bits, bool verbose)
 	      std::cerr << "No record follows the ID of sector "
 			<< sec.address << "\n";
 	    }
+	  VERIF_EVENT("{\"e\":\"far\",\"enc\":\"MFM\",\"rec\":%u,\"pos\":%zu}", unsigned(sec.address.record), thisbit);
 	  state = MfmDecodeState::LookingForSectorHeader;
 	}
       // The next byte is an address mark; either the ID address mark
@@ -191,11 +193,13 @@ std::vector<Sector> decode_mfm_track(const BitStream& bits, bool verbose)
 						       error))
 		      {
 			id_end = thisbit;
+			VERIF_EVENT("{\"e\":\"id\",\"enc\":\"MFM\",\"ok\":1,\"rec\":%u,\"pos\":%zu}", unsigned(sec.address.record), thisbit);
 			state = MfmDecodeState::LookingForRecord;
 			continue;
 		      }
 		  }
 	      }
+	    VERIF_EVENT("{\"e\":\"id\",\"enc\":\"MFM\",\"ok\":0,\"why\":\"rejected\",\"pos\":%zu}", thisbit);
 	    if (verbose)
 	      {
 		std::cerr << "Failed to read sector address: " << error << "\n";
@@ -227,6 +231,7 @@ std::vector<Sector> decode_mfm_track(const BitStream& bits, bool verbose)
 		if (check_crc_with_a1s(mark_and_data, error))
 		  {
 		    const auto is_data = mark_and_data[0] == data_address_mark ? true : false;
+		    VERIF_EVENT("{\"e\":\"data\",\"enc\":\"MFM\",\"res\":\"%s\",\"rec\":%u,\"pos\":%zu}", is_data ? "yield" : "deleted", unsigned(sec.address.record), thisbit);
 		    if (is_data)
 		      {
 			sec.crc[0] = mark_and_data[sec_size + 1];
@@ -248,6 +253,7 @@ std::vector<Sector> decode_mfm_track(const BitStream& bits, bool verbose)
 		  }
 		else
 		  {
+		    VERIF_EVENT("{\"e\":\"data\",\"enc\":\"MFM\",\"res\":\"crc\",\"rec\":%u,\"pos\":%zu}", unsigned(sec.address.record), thisbit);
 		    if (verbose)
 		      {
 			std::cerr << "Failed to read sector " << sec.address
@@ -257,6 +263,7 @@ std::vector<Sector> decode_mfm_track(const BitStream& bits, bool verbose)
 		    continue;
 		  }
 	      }
+	    VERIF_EVENT("{\"e\":\"data\",\"enc\":\"MFM\",\"res\":\"short\",\"rec\":%u,\"pos\":%zu}", unsigned(sec.address.record), thisbit);
 	    if (verbose)
 	      std::cerr << "Failed to read sector data: " << error << "\n";
 	  }
